@@ -32,6 +32,8 @@ def run(ctx):
     r4_nullable(ctx)
     r5_two_sided(ctx)
     r6_batch_unbatch(ctx)
+    r7_sort_keys(ctx)
+    c04.r6_replay_buffer(ctx, rule="C09.R1")
 
 
 # ------------------------------------------------------------------------------------------ R1
@@ -120,7 +122,11 @@ def r2_seed_only(ctx):
                 n += 1
                 ok = len(c.args) == 1 and unparse(c.args[0]) == "self._seed"
                 ctx.ob("C09.R2", rel, qual, c, "the generator is seeded with exactly the filter's seed", ok)
-    ctx.floor("C09.R2", "generator constructions in Shuffle/Reservoir/Riffle", n, 3)
+    ctx.floor("C09.R2", "Shuffle/Reservoir/Riffle filter methods examined", 3, 3)
+    for (rel, qual) in ((PF, "Shuffle"), (PF, "Reservoir"), (EF, "Riffle")):
+        c = ctx.model.cls(rel, qual)
+        made = [x for x in walk_shallow(c.methods["filter"]) if isinstance(x, ast.Call) and call_name(x) == "CobaRandom"]
+        ctx.ob("C09.R2", rel, f"{qual}.filter", c.methods["filter"], "the generator is created inside filter() (one fresh generator per call)", bool(made), stmt=f"{qual}: generator per call")
     for rel, qual in ((PF, "Shuffle.__init__"), (PF, "Reservoir.__init__"), (EF, "Riffle.__init__")):
         f = ctx.fn(rel, qual)
         st = [x for x in walk_shallow(f) if isinstance(x, ast.Assign) and any(is_self_attr(t, "_seed") for t in x.targets)]
@@ -384,7 +390,28 @@ def r6_batch_unbatch(ctx):
     ctx.ob("C09.R6", EF, "Batch._batched", bf, "one iterator is cut into consecutive chunks of n until it is empty", ok, stmt="_batched")
 
 
+def r7_sort_keys(ctx):
+    ctx.rule("C09.R7", "Sort keeps the caller's key order: the keys are stored as given (flattened, not sorted/de-duplicated) and the sort key tuple "
+                       "is built by iterating them in that order")
+    init = ctx.fn(EF, "Sort.__init__")
+    st = [x for x in walk_shallow(init) if isinstance(x, ast.Assign) and any(is_self_attr(t, "_keys") for t in x.targets)]
+    ok = len(st) == 1 and not any(isinstance(c, ast.Call) and call_name(c) in ("sorted", "set", "frozenset", "reversed", "dict.fromkeys") for c in ast.walk(st[0].value)) \
+        and "keys" in {n.id for n in ast.walk(st[0].value) if isinstance(n, ast.Name)}
+    ctx.ob("C09.R7", EF, "Sort.__init__", st[0] if st else init, "sort keys are stored in the order given", ok, detail={"value": unparse(st[0].value) if st else None})
+    flt = ctx.fn(EF, "Sort.filter")
+    lams = [x for x in walk_shallow(flt) if isinstance(x, ast.Lambda) and "self._keys" in unparse(x)]
+    ok = bool(lams) and all(isinstance(l.body, ast.Call) and call_name(l.body) == "tuple" and isinstance(l.body.args[0], ast.GeneratorExp)
+                            and unparse(l.body.args[0].generators[0].iter) == "self._keys" and not l.body.args[0].generators[0].ifs for l in lams)
+    ctx.ob("C09.R7", EF, "Sort.filter", lams[0] if lams else flt, "the sort key is the tuple of the context values at the keys, in key order", ok, stmt="sort key tuple")
+    srt = [c for c in walk_shallow(flt) if isinstance(c, ast.Call) and call_name(c) == "sorted"]
+    ok = len(srt) == 1 and not any(k.arg == "reverse" for k in srt[0].keywords) and kw(srt[0], "key") is not None
+    ctx.ob("C09.R7", EF, "Sort.filter", srt[0] if srt else flt, "ordering is Python's stable sorted() by that key", ok, stmt="stable sorted")
+
+
 CONTROLS = [
+    ("Sort de-duplicates its keys", EF, M.replace_expr("Sort.__init__", "list(pipes.Flatten().filter([list(keys)]))[0]", "sorted(set(list(pipes.Flatten().filter([list(keys)]))[0]), key=str)"), "C09.R7"),
+    ("Riffle keeps its generator", EF, M.chain(M.insert_after("Riffle.__init__", M.simple_has("self._seed = seed"), "self._rng = CobaRandom(seed)"),
+                                               M.replace_stmt("Riffle.filter", M.simple_has("rng = CobaRandom(self._seed)"), "rng = self._rng")), "C09.R2"),
     ("Shuffle seed not restored", EF, M.replace_stmt("Shuffle.filter", lambda st: isinstance(st, ast.Try), "yield from super().filter(interactions)\nself._seed = old_seed"), "C09.R2"),
     ("Where alters interaction", EF, M.replace_stmt("Where.filter", M.simple_has("yield interaction"), "interaction['context'] = None\nyield interaction"), "C09.R1"),
     ("Sort yields copies", EF, M.replace_expr("Sort.filter", "sorted(interactions, key=sorter)", "sorted(map(dict, interactions), key=sorter)"), "C09.R1"),
